@@ -5,7 +5,7 @@ import random
 from .. import mc, tlc, eqbind
 from ..tlaval import to_json
 
-ALL_BEHS = ['equal', 'different', 'bare', 'playerRaises', 'extractorRaises', 'comparatorRaises', 'exits', 'hangs', 'late']
+ALL_BEHS = ['equal', 'different', 'bare', 'playerRaises', 'extractorRaises', 'comparatorRaises', 'dataRaises', 'exits', 'hangs', 'late']
 PROC_BEHS = {'exits', 'hangs', 'late', 'unreadable'}
 INVS = ['Attribution', 'OneEach', 'RecycleBound', 'OneWorker']
 
